@@ -6,7 +6,7 @@ use std::collections::BTreeMap;
 use serde::{Deserialize, Serialize};
 use sim_core::Rng;
 
-use crate::chain::{Edit, HashRef, Item, Material, MsgPart, Recipe, SetCfg, Workshop};
+use crate::chain::{Edit, HashRef, Item, Material, MsgPart, Recipe, SetCfg, TotalStake, Workshop};
 use crate::provider::{Answer, Lie, LieOn};
 
 #[derive(Clone, Copy, Debug, Serialize, Deserialize, PartialEq, Eq)]
@@ -71,10 +71,33 @@ fn lie(on: usize, answer: Answer, kind: &str) -> Lie {
 
 impl<'a> Gen<'a> {
     fn random_params(&mut self) -> (u64, u64, f64) {
+        let phi = *self.rng.pick(&[0.65f64, 0.8, 0.95]);
+        if self.rng.chance(0.35) {
+            // demanding quorum: a strict subset of the signers does not reach k by fair play
+            let m = self.rng.range(60, 100);
+            return (m * 35 / 100, m, phi);
+        }
         let k = *self.rng.pick(&[5u64, 5, 5, 4, 6, 3]);
         let m = self.rng.range(40, 100);
-        let phi = *self.rng.pick(&[0.65f64, 0.8, 0.95]);
         (k, m, phi)
+    }
+
+    /// A coalition of registered signers of `set` (strict subset) and the INSIDER signing edit.
+    fn insider_edit(&mut self, set: usize, flavour: usize) -> (String, Edit) {
+        let n = self.ws.material.sets[set].parties.len();
+        let size = if self.rng.chance(0.6) { 1 } else { self.rng.range(1, n as u64 - 1) as usize };
+        let mut idx: Vec<usize> = (0..n).collect();
+        self.rng.shuffle(&mut idx);
+        let mut members: Vec<usize> = idx.into_iter().take(size).collect();
+        members.sort_unstable();
+        let (label, greedy, total_stake) = match flavour {
+            0 => ("insider_total_stake_shrunk", true, TotalStake::ShrunkBy(*self.rng.pick(&[50u64, 20, 1000]))),
+            1 => ("insider_total_stake_enlarged", true, TotalStake::EnlargedBy(*self.rng.pick(&[2u64, 1000]))),
+            2 => ("insider_greedy_key_unaltered", true, TotalStake::Keep),
+            3 => ("insider_fair_subset_key_unaltered", false, TotalStake::Keep),
+            _ => ("insider_fair_subset_total_stake_shrunk", false, TotalStake::ShrunkBy(50)),
+        };
+        (label.to_string(), Edit::InsiderSign { set, members, greedy, total_stake })
     }
 
     fn new_set(&mut self, adversarial: bool, params: Option<(u64, u64, f64)>) -> usize {
@@ -369,6 +392,7 @@ impl<'a> Gen<'a> {
                 3,  // 23 genesis by adversary key
                 2,  // 24 honest genesis signature pasted
                 3,  // 25 honest genesis signed content transplanted
+                12, // 26 insider coalition of the legitimate signer set
             ]);
             let out: (String, Vec<Edit>) = match choice {
                 0 => {
@@ -448,10 +472,18 @@ impl<'a> Gen<'a> {
                 22 => ("resign_sig_only".into(), vec![Edit::ResignSigOnly(a)]),
                 23 => ("genesis_adv_key".into(), vec![Edit::ResignGenesisAdv]),
                 24 => ("genesis_sig_pasted".into(), vec![Edit::SigOf(0)]),
-                _ => (
+                25 => (
                     "genesis_content_transplant".into(),
                     vec![Edit::MsgFrom(0), Edit::SignedMessageOf(0), Edit::SigOf(0), Edit::Epoch(self.g0)],
                 ),
+                _ => {
+                    if self.ws.built[x].cert.is_genesis() || !self.set_of_epoch.contains_key(&e) {
+                        continue;
+                    }
+                    let flavour = self.rng.weighted(&[45, 10, 20, 15, 10]);
+                    let edits = self.insider_message_and_signature(e, flavour, a);
+                    edits
+                }
             };
             return out;
         }
@@ -697,15 +729,104 @@ impl<'a> Gen<'a> {
         }
     }
 
+    /// Insider forgery of a certificate of epoch `e`: a message of the coalition's choice (own
+    /// digest; sometimes announcing the adversary's signer set for the next epoch), signed by the
+    /// coalition.
+    fn insider_message_and_signature(&mut self, e: u64, flavour: usize, adv: usize) -> (String, Vec<Edit>) {
+        let set = self.set_of_epoch[&e];
+        let (label, sign) = self.insider_edit(set, flavour);
+        let mut edits = vec![Edit::MsgSet(MsgPart::Digest, format!("insider-{}", self.rng.below(4)))];
+        let mut label = label;
+        if self.rng.chance(0.35) {
+            edits.push(Edit::MsgNextAvkOfSet(adv));
+            edits.push(Edit::MsgNextParamsOfSet(adv));
+            label.push_str("+announces_adversary_set");
+        }
+        edits.push(Edit::SignedMessageRecompute);
+        edits.push(sign);
+        (label, edits)
+    }
+
+    /// Dedicated insider history: a forged certificate of a legitimate epoch (first of the epoch
+    /// or not, optionally re-linked inside the epoch / to another certificate of the previous
+    /// epoch), verified directly, below re-linked honest descendants, or below a consistent
+    /// adversarial chain that starts with the signer set the forgery announced.
+    fn move_insider(&mut self) {
+        let candidates: Vec<usize> = self.honest_ids().into_iter().filter(|h| !self.ws.built[*h].cert.is_genesis()).collect();
+        if candidates.is_empty() {
+            return self.move_honest();
+        }
+        let x = *self.rng.pick(&candidates);
+        let e = self.epoch_of(x);
+        let adv = self.adv_set();
+        let flavour = self.rng.weighted(&[55, 8, 17, 12, 8]);
+        let (label, mut edits) = self.insider_message_and_signature(e, flavour, adv);
+        if self.rng.chance(0.3) {
+            let f = *self.rng.pick(&["same_epoch", "prev_epoch_other"]);
+            if let Some(h) = self.relink_target(x, f) {
+                edits.insert(0, Edit::Prev(h));
+            }
+        }
+        let announces_adv = label.contains("announces_adversary_set");
+        let forged = self.add_item(Recipe::Derived { base: x, edits, rehash: true }, false, &format!("insider.{label}"));
+        if self.rng.chance(0.3) {
+            let start = self.pick_honest_start();
+            self.push_call(Subject::Client, start, vec![], "honest (before insider)");
+        }
+        let mut start = forged;
+        let mut note = format!("insider: {label} @epoch{e}");
+        match self.rng.weighted(&[45, 25, 30]) {
+            0 => {}
+            1 => {
+                // an honest certificate of the same / next epoch re-linked on top of the forgery
+                let above: Vec<usize> = self
+                    .honest_ids()
+                    .into_iter()
+                    .filter(|h| *h != x && (self.epoch_of(*h) == e || self.epoch_of(*h) == e + 1) && !self.ws.built[*h].cert.is_genesis())
+                    .collect();
+                if !above.is_empty() {
+                    let y = *self.rng.pick(&above);
+                    start = self.add_item(
+                        Recipe::Derived { base: y, edits: vec![Edit::Prev(HashRef::Content(forged))], rehash: true },
+                        false,
+                        "insider.honest_relinked_on_top",
+                    );
+                    note.push_str(" +honest re-linked on top");
+                }
+            }
+            _ => {
+                let first_set = if announces_adv { Some(adv) } else { None };
+                let n = self.rng.range(1, 3) as usize;
+                let chain = self.consistent_adversarial_chain(HashRef::Content(forged), e + 1, n, "oninsider", first_set);
+                start = *chain.last().unwrap();
+                note.push_str(&format!(" +adversarial chain[{n}] on top"));
+            }
+        }
+        let subject = self.subject();
+        self.push_call(subject, start, vec![], &note);
+        if self.rng.chance(0.4) {
+            // again, in the cache state the first call left, possibly with a swap
+            let lies = if self.rng.chance(0.5) { vec![self.swap_lie(start, None)] } else { vec![] };
+            self.push_call(Subject::Client, start, lies, &format!("{note} (again)"));
+        }
+    }
+
     /// An internally consistent adversarial chain: 2-4 certificates over consecutive epochs, each
     /// with a valid multi-signature of an adversary signer set, correct hashes, and next-AVK /
     /// next-parameter hand-overs that are consistent among themselves. Returned bottom first.
-    fn consistent_adversarial_chain(&mut self, bottom_prev: HashRef, bottom_epoch: u64, n: usize, tag: &str) -> Vec<usize> {
+    fn consistent_adversarial_chain(
+        &mut self,
+        bottom_prev: HashRef,
+        bottom_epoch: u64,
+        n: usize,
+        tag: &str,
+        first_set: Option<usize>,
+    ) -> Vec<usize> {
         let sets = self.adv_sets.clone();
         let mut out = Vec::new();
         let mut prev = bottom_prev;
         let mut epoch = bottom_epoch;
-        let mut set = *self.rng.pick(&sets);
+        let mut set = first_set.unwrap_or_else(|| *self.rng.pick(&sets));
         for i in 0..n {
             // the set that signs in the next epoch (announced by this certificate)
             let next_set = *self.rng.pick(&sets);
@@ -758,7 +879,7 @@ impl<'a> Gen<'a> {
             }
         };
         let n = self.rng.range(2, 4) as usize;
-        let chain = self.consistent_adversarial_chain(bottom_prev, bottom_epoch, n, "advchain");
+        let chain = self.consistent_adversarial_chain(bottom_prev, bottom_epoch, n, "advchain", None);
         let top = *chain.last().unwrap();
         if self.rng.chance(0.3) {
             // honest links may be cached too
@@ -946,7 +1067,7 @@ pub fn generate<'r>(chain_rng: &'r mut Rng, rng: &'r mut Rng) -> (Scenario, Work
             g.move_honest();
             continue;
         }
-        match g.rng.weighted(&[20, 14, 18, 9, 16, 5, 5, 4, 14]) {
+        match g.rng.weighted(&[19, 13, 17, 8, 14, 5, 5, 4, 13, 12]) {
             0 => g.move_honest(),
             1 => g.move_point_lies(),
             2 => g.move_cascade_fork(None),
@@ -959,7 +1080,8 @@ pub fn generate<'r>(chain_rng: &'r mut Rng, rng: &'r mut Rng) -> (Scenario, Work
             5 => g.move_adversarial_genesis(),
             6 => g.move_rule_switch(),
             7 => g.move_cached_link_swap(),
-            _ => g.move_adversarial_chain_campaign(),
+            8 => g.move_adversarial_chain_campaign(),
+            _ => g.move_insider(),
         }
     }
     let sc = Scenario {
